@@ -881,7 +881,7 @@ func bucketOf(n int) string {
 func TestC16Aggregations(t *testing.T) {
 	ev.Assume("the query language of the generator (match-all, term, wide numeric range, boolean combinations of term/match-all leaves) is evaluated by the harness's own model; AllMatches executions cross-check that evaluation")
 	ev.Assume("conventions adopted where the property is silent: weight of a document without weight value = 1, weight of a multi-valued weight field = its smallest value, a range bucket receives a document once per value inside the range; min/max/avg/quantiles over no values are not judged")
-	vlib.Check(t, 150, 1000, func(rt *rapid.T) {
+	vlib.Check(t, 150, 2500, func(rt *rapid.T) {
 		c := genCase(rt)
 		var st stats
 		f := prop(&c, &st)
